@@ -20,6 +20,7 @@ EXPLANATION = (
     "back-end are inverse (library)."
 )
 TRUSTED = ["sign_v4/verify_v4 of each crypto library are inverse on the same digest", "alias resolution and event extraction of the kernel"]
+WITNESSES = ['W1a', 'W1b', 'W1c', 'W1d', 'W2a', 'W2b', 'W2c', 'W3', 'W6']  # compile-fail witnesses run in the thorough tier (witness/src/lib.rs)
 ASSUMPTIONS = ["custom EnrKey implementations satisfy only the trait signatures"]
 
 FLOOR_CORE = 5
